@@ -33,6 +33,8 @@ class Parser(Emitter):
             if self.debug:
                 traceback.print_exc()
             error = str(formulaserror.from_message(e))
+            # the XLError singletons are shared: drop the frames this raise attached to them
+            e.__traceback__ = None
 
         if isinstance(result, formulaserror.XLError):
             error = str(formulaserror.from_message(result))
